@@ -94,6 +94,8 @@ func (m *meta) init() (r error) {
 }
 
 func (m *meta) start() {
+	lib.VerifPoint("meta.s.start", m)
+	defer lib.VerifPoint("meta.s.exit", m)
 	defer m.p.metas.Delete(m.id)
 
 	if lib.Recover() {
@@ -102,8 +104,10 @@ func (m *meta) start() {
 				pc, fn, line, _ := runtime.Caller(2)
 				m.log.Panic("meta process %s terminated - %#v at %s[%s:%d]", m.id,
 					rcv, runtime.FuncForPC(pc).Name(), fn, line)
+				lib.VerifPoint("meta.s.swapT", m)
 				old := atomic.SwapInt32(&m.state, int32(gen.MetaStateTerminated))
 				if old != int32(gen.MetaStateTerminated) {
+					lib.VerifPoint("meta.s.del", m)
 					m.p.node.aliases.Delete(m.id)
 					atomic.StoreInt32(&m.state, int32(gen.MetaStateTerminated))
 					reason := gen.TerminateReasonPanic
@@ -117,15 +121,20 @@ func (m *meta) start() {
 	// start meta process
 	m.creation = time.Now().Unix()
 
+	lib.VerifPoint("meta.s.store", m)
 	atomic.StoreInt32(&m.state, int32(gen.MetaStateSleep))
 
 	// handle mailbox
+	lib.VerifPoint("meta.s.spawnh", m)
 	go m.handle()
 
+	lib.VerifPoint("meta.s.run", m)
 	reason := m.behavior.Start()
 	// meta process terminated
+	lib.VerifPoint("meta.s.swapT", m)
 	old := atomic.SwapInt32(&m.state, int32(gen.MetaStateTerminated))
 	if old != int32(gen.MetaStateTerminated) {
+		lib.VerifPoint("meta.s.del", m)
 		m.p.node.aliases.Delete(m.id)
 		if reason == nil {
 			reason = gen.TerminateReasonNormal
@@ -139,12 +148,16 @@ func (m *meta) handle() {
 	var reason error
 	var result any
 
+	lib.VerifPoint("meta.cas", m)
 	if atomic.CompareAndSwapInt32(&m.state, int32(gen.MetaStateSleep), int32(gen.MetaStateRunning)) == false {
 		// running or terminated
 		return
 	}
 
+	lib.VerifPoint("meta.spawn", m)
 	go func() {
+		lib.VerifPoint("meta.h.start", m)
+		defer lib.VerifPoint("meta.h.exit", m)
 		var message *gen.MailboxMessage
 
 		if lib.Recover() {
@@ -154,8 +167,10 @@ func (m *meta) handle() {
 					m.log.Panic("meta process %s terminated - %#v at %s[%s:%d]", m.id,
 						rcv, runtime.FuncForPC(pc).Name(), fn, line)
 
+					lib.VerifPoint("meta.h.swapT", m)
 					old := atomic.SwapInt32(&m.state, int32(gen.MetaStateTerminated))
 					if old != int32(gen.MetaStateTerminated) {
+						lib.VerifPoint("meta.h.del", m)
 						m.p.node.aliases.Delete(m.id)
 						reason = gen.TerminateReasonPanic
 						m.p.node.RouteTerminateAlias(m.id, reason)
@@ -170,12 +185,15 @@ func (m *meta) handle() {
 			reason = nil
 			result = nil
 
+			lib.VerifPoint("meta.h.state", m)
 			if gen.MetaState(atomic.LoadInt32(&m.state)) != gen.MetaStateRunning {
 				// terminated
 				break
 			}
+			lib.VerifPoint("meta.h.pop", m)
 			msg, ok := m.system.Pop()
 			if ok == false {
+				lib.VerifPoint("meta.h.pop", m)
 				msg, ok = m.main.Pop()
 				if ok == false {
 					// no messages
@@ -244,8 +262,10 @@ func (m *meta) handle() {
 			}
 
 			// terminated
+			lib.VerifPoint("meta.h.swapT", m)
 			old := atomic.SwapInt32(&m.state, int32(gen.MetaStateTerminated))
 			if old != int32(gen.MetaStateTerminated) {
+				lib.VerifPoint("meta.h.del", m)
 				m.p.node.aliases.Delete(m.id)
 				m.p.node.RouteTerminateAlias(m.id, reason)
 				m.behavior.Terminate(reason)
@@ -253,13 +273,16 @@ func (m *meta) handle() {
 			return
 		}
 
+		lib.VerifPoint("meta.h.cas.sleep", m)
 		if atomic.CompareAndSwapInt32(&m.state, int32(gen.MetaStateRunning), int32(gen.MetaStateSleep)) == false {
 			// terminated. seems the main loop is stopped. do nothing.
 			return
 		}
 
 		// check if we got a new message
+		lib.VerifPoint("meta.h.item", m)
 		if m.system.Item() == nil {
+			lib.VerifPoint("meta.h.item", m)
 			if m.main.Item() == nil {
 				// no messages
 				return
@@ -267,6 +290,7 @@ func (m *meta) handle() {
 		}
 
 		// got some... try to use this goroutine
+		lib.VerifPoint("meta.h.cas.wake", m)
 		if atomic.CompareAndSwapInt32(&m.state, int32(gen.MetaStateSleep), int32(gen.MetaStateRunning)) == false {
 			// another goroutine is already running
 			return
